@@ -215,7 +215,8 @@ def playback(ctx: Ctx, h: dict, logdir: str, prop: str) -> dict:
     with Lane(ctx) as lane:
         cmd = kani_cmd(lane, h, "-Z concrete-playback --concrete-playback=print")
         # trace generation for every failed check and every cover costs several times the plain run
-        rc, out, wall = run_cmd(cmd, ctx.harness_dir, 4 * h["timeout"] + 900, h.get("mem_gb", 10))
+        # (and the JSON trace needs far more address space than the plain run: 10 GB was not enough)
+        rc, out, wall = run_cmd(cmd, ctx.harness_dir, 4 * h["timeout"] + 900, 32)
     with open(os.path.join(logdir, h["name"] + ".playback-gen.log"), "w") as f:
         f.write(out)
     test = extract_playback_test(out)
